@@ -30,6 +30,7 @@ ASSUMPTIONS = {
     "A-BYTESIO": "BytesIO: read(n) returns data[pos:pos+n] and advances pos by the length obtained; write appends at the end; seek/getvalue as documented",
     "A-STRUCT": "struct.pack(fmt, v) is a total injective function of v on the format's range with the format's width (4/8 bytes); unpack is its inverse and raises struct.error on wrong length",
     "A-UTF8": "str.encode('utf-8') is total and injective on surrogate-free str; encode(s)==b'' iff s==''; str(b,'utf-8') inverts it and raises UnicodeDecodeError on invalid input",
+    "A-PYVER": "sys.version_info is that of the repository's interpreter, CPython 3.12 (version-dependent branches are resolved accordingly)",
     "A-LEN": "len() of any bytes/str object is below 2**63 (CPython Py_ssize_t)",
     "A-BYTES": "every element of a bytes value is in 0..255",
     "A-TOBYTES": "(x).to_bytes(1,'little') == bytes([x]) for 0<=x<256 else OverflowError; int.from_bytes(b,'little') is the little-endian value",
@@ -246,6 +247,15 @@ class SpecLib:
         return self._plug("binop_hook", ex, op, a, b, st)
 
     def compare_hook(self, ex, op, a, b, st):
+        if a.kind == "func" and a.t == ("builtin", "sys.version_info") and b.kind == "tuple":
+            # A-PYVER: the repository's interpreter (/venv) is CPython 3.12
+            tgt = tuple(concrete_int(x.t) for x in b.t)
+            ex.assumption("A-PYVER")
+            ver = (3, 12)
+            import operator
+            opf = {ast.Lt: operator.lt, ast.LtE: operator.le, ast.Gt: operator.gt, ast.GtE: operator.ge}.get(type(op))
+            if opf is not None and None not in tgt:
+                return z3.BoolVal(opf(ver, tgt))
         return self._plug("compare_hook", ex, op, a, b, st)
 
     def identical_hook(self, ex, a, b, st):
@@ -504,7 +514,7 @@ class SpecLib:
             if name == "write":
                 b = ex.as_bytes(pos[0], st)
                 # the append model of write() is only valid at the end of the buffer
-                ex.oblige(st, f"write-at-end@{ex.cur_line}", p == z3.Length(data), "safety")
+                ex.oblige(st, f"write-at-end@{ex.cur_line}", p == z3.Length(data), "model")
                 st2 = st.clone()
                 nd = z3.Concat(data, b)
                 st2.heap[(key, "data")] = sv_bytes(nd)
